@@ -24,7 +24,7 @@
 //!     (kind q), prepared executes (x) and batches (b) to a one-node mocknode; a seeded part of them
 //!     carries an explicit statement timestamp (boundary values included).  Per request, in request
 //!     order: the explicit timestamp ('n' = none) and the timestamp field of the frame the mock
-//!     received ('n' = flag not set, 'm' = no frame seen, 'd' = more than one frame).  <consults> =
+//!     received ('n' = flag not set, 'missing' = no frame seen, 'dup' = more than one frame).  <consults> =
 //!     number of next_timestamp calls during the window, <frames> = number of QUERY/EXECUTE/BATCH
 //!     frames the mock received during the window.
 //! Encoding of integer lists: the first token and every token starting with '=' are absolute
@@ -320,9 +320,9 @@ async fn run_e(serial: u64, with_gen: bool, nreq: usize) -> Result<String, Strin
         .zip(&observed)
         .map(|((kind, explicit), obs)| {
             let o = match obs.len() {
-                0 => "m".to_string(),
+                0 => "missing".to_string(),
                 1 => opt(obs[0]),
-                _ => "d".to_string(),
+                _ => "dup".to_string(),
             };
             format!("{}.{}.{}", kind, opt(*explicit), o)
         })
